@@ -1,3 +1,4 @@
+import re, json
 """C10 — ORDER BY / LIMIT / OFFSET return the right slice in the right order (function-level core)."""
 import math
 from vlib import hx
@@ -499,3 +500,123 @@ def nontrivial_key(c, impl):
     if impl is None or impl in ("ERR", "R", "K", "PANIC", "ABORT"):
         return None
     return (c["line"].split()[0], c["kind"], impl)
+
+
+# ---------------------------------------------------------------------------------------------
+# Engine-level part (oracle only): ORDER BY / LIMIT / OFFSET over shards x memory / segments / compacted
+# segments on the real engine; the oracle is a reference sort of the stored rows.
+from props import englib as _E
+
+_F = {"cases": cases, "run_sides": run_sides, "same": same, "oracle": oracle, "classify": classify,
+      "nontrivial_key": nontrivial_key}
+
+
+def _eng_cases(rng, tier):
+    out = []
+    n = 14 if tier == "quick" else 400
+    for i in range(n):
+        cfg = dict(rng.choice(_E.CFGS)); cfg["segments_per_merge"] = rng.choice([2, 3])
+        evs, script = _E.gen_population(rng, rng.range(5, 40), rng.range(1, 5), rng.choice([3, 10, 1000]))
+        script.append(("quiesce",))
+        script.append(("cmd", "QUERY t"))     # the selection itself: pool for the reference sort
+        qs = []
+        total = len(evs)
+        for _ in range(6):
+            desc = rng.chance(1, 2)
+            n_ = rng.choice([0, 1, 2, 3, 5, total, total + 3, rng.below(total + 2)])
+            m_ = rng.choice([0, 0, 1, 2, total, total + 1, rng.below(total + 2)])
+            kind = rng.below(6)
+            if kind == 0:
+                q = f"QUERY t ORDER BY k{' DESC' if desc else ''} LIMIT {n_} OFFSET {m_}"; spec = ("ord", desc, n_, m_, None)
+            elif kind == 1:
+                q = f"QUERY t ORDER BY k{' DESC' if desc else ''} LIMIT {n_}"; spec = ("ord", desc, n_, 0, None)
+            elif kind == 2:
+                q = f"QUERY t ORDER BY k{' DESC' if desc else ''}"; spec = ("ord", desc, None, 0, None)
+            elif kind == 3:
+                q = f"QUERY t LIMIT {n_}"; spec = ("lim", False, n_, 0, None)
+            elif kind == 4:
+                q = f"QUERY t OFFSET {m_}"; spec = ("off", False, None, m_, None)
+            else:
+                thr = rng.below(10)
+                q = f"QUERY t WHERE k >= {thr} ORDER BY k{' DESC' if desc else ''} LIMIT {n_} OFFSET {m_}"; spec = ("ord", desc, n_, m_, thr)
+            qs.append(spec)
+            script.append(("cmd", q))
+        out.append({"kind": "engine", "line": "", "cfg": cfg, "script": [list(x) for x in script], "evs": evs, "qs": qs,
+                    "show": f"engine {cfg}: {total} events, " + "; ".join(x[1] for x in script[-6:])})
+    return out
+
+
+def cases(rng, tier):
+    return _F["cases"](rng, tier) + _eng_cases(rng.fork("engine"), tier)
+
+
+def run_sides(cases_, model_ok):
+    fn = [c for c in cases_ if c.get("kind") != "engine"]
+    en = [c for c in cases_ if c.get("kind") == "engine"]
+    fi, fm = _F["run_sides"](fn, model_ok) if fn else ([], [])
+    ei = _E.run_scripts(en) if en else []
+    it_f, it_m, it_e = iter(fi), iter(fm), iter(ei)
+    impl, model = [], []
+    for c in cases_:
+        if c.get("kind") == "engine":
+            impl.append(next(it_e)); model.append(None)
+        else:
+            impl.append(next(it_f)); model.append(next(it_m))
+    return impl, model
+
+
+def same(c, impl, model):
+    return True if c.get("kind") == "engine" else _F["same"](c, impl, model)
+
+
+def _eng_oracle(c, impl):
+    if not impl.get("ok"):
+        return "engine harness: " + str(impl.get("err"))
+    res = impl["res"][-len(c["qs"]):]
+    base_r = impl["res"][-len(c["qs"]) - 1]
+    if base_r["status"] != 200:
+        return None
+    sel = [x["k"] for x in base_r["rows"]]
+    for spec, r in zip(c["qs"], res):
+        kind, desc, n_, m_, thr = spec
+        if kind == "off":
+            if r["status"] == 200:
+                return f"OFFSET {m_} without LIMIT was answered with status 200"
+            continue
+        if r["status"] != 200:
+            return f"{spec}: status {r['status']} {r.get('message')}"
+        keys = [x["k"] for x in r["rows"]]
+        pool = sorted((k for k in sel if thr is None or k >= thr), reverse=bool(desc))
+        if kind == "ord":
+            exp = pool[m_:] if n_ is None else pool[m_:m_ + n_]
+            if keys != exp:
+                return f"ORDER BY k{' DESC' if desc else ''} LIMIT {n_} OFFSET {m_} WHERE>={thr}: returned keys {keys}, rows {m_}..{m_}+{n_} of the typed order are {exp}"
+        else:
+            want = min(n_, len(pool))
+            ids = [x["event_id"] for x in r["rows"]]
+            if len(keys) != want or len(set(ids)) != len(ids):
+                return f"LIMIT {n_}: returned {len(keys)} rows ({len(set(ids))} distinct), expected {want}"
+    return None
+
+
+def oracle(c, impl):
+    return _eng_oracle(c, impl) if c.get("kind") == "engine" else _F["oracle"](c, impl)
+
+
+def classify(c, impl):
+    if c.get("kind") == "engine":
+        why = _eng_oracle(c, impl) or ""
+        m = re.search(r"ORDER BY .* LIMIT (\d+) OFFSET (\d+) .*returned keys (\[[^\]]*\])", why)
+        if m:
+            keys = json.loads(m.group(3))
+            # known class only when what came back is itself sorted and complete in size, i.e. a wrong SLICE
+            if keys == sorted(keys) or keys == sorted(keys, reverse=True):
+                return "OrderedLimitWrongSlice"
+        return None
+    return _F["classify"](c, impl)
+
+
+def nontrivial_key(c, impl):
+    if c.get("kind") == "engine":
+        return c["show"] if impl.get("ok") else None
+    return _F["nontrivial_key"](c, impl)
